@@ -344,6 +344,26 @@ func (s *storeRun) descendants(id int) []int {
 	return out
 }
 
+// ancestorMoved: some ancestor of t was mutated after t (or the ancestor in between) was opened: t is stale, it reads
+// through the ancestor's store and its reads may fail (see frame); it must never read different content
+func (s *storeRun) ancestorMoved(t *trieH) bool {
+	for cur := t; cur.id != cur.parent; {
+		p, ok := s.tries[cur.parent]
+		if !ok {
+			return true
+		}
+		if p.muts != cur.parentMuts {
+			return true
+		}
+		cur = p
+	}
+	return false
+}
+
+func staleReadError(out string) bool {
+	return out == "nodenotfound" || out == "iterchild" || out == "missingnodes"
+}
+
 func (s *storeRun) isDescendant(id, anc int) bool {
 	for id != anc {
 		t, ok := s.tries[id]
@@ -1080,19 +1100,57 @@ func (s *storeRun) exec(op string) string {
 		}
 		return out
 
-	case "get":
+	case "iter":
+		// iteration THROUGH THE TRIE OBJECT ITSELF (not a probe): whatever the object caches is exercised
+		t := trie(f[1])
+		if t == nil {
+			return "bad-op"
+		}
+		out := guard(func() string {
+			ps, err := iterPairs(t.mpt)
+			if err != nil {
+				return errKind(err)
+			}
+			return "ok " + fmtPairs(ps)
+		})
+		if staleReadError(out) && s.ancestorMoved(t) {
+			s.tags["stale-descendant-read-broken"] = true
+			return out
+		}
+		if want := "ok " + fmtPairs(sortedPairs(t.content)); out != want {
+			s.fail("C03", "iteration through trie %d itself returned %q, want %q (parent content + own operations)", t.id, clip(out), clip(want))
+		}
+		s.tags["same-object-iter"] = true
+		return out
+
+	case "get", "getv":
+		// point lookup through the trie object itself: GetNodeValueRaw (get) / GetNodeValue into a value (getv)
 		t := trie(f[1])
 		if t == nil {
 			return "bad-op"
 		}
 		path := pathOf(f[2])
 		out := guard(func() string {
+			if f[0] == "getv" {
+				var v sval
+				if err := t.mpt.GetNodeValue([]byte(path), &v); err != nil {
+					return errKind(err)
+				}
+				return "ok " + hx(v.Buffer)
+			}
 			v, err := t.mpt.GetNodeValueRaw([]byte(path))
 			if err != nil {
 				return errKind(err)
 			}
 			return "ok " + hx(v)
 		})
+		if t.muts > 0 || t.parent != t.id {
+			s.tags["same-object-read"] = true
+		}
+		if staleReadError(out) && s.ancestorMoved(t) {
+			s.tags["stale-descendant-read-broken"] = true
+			return out
+		}
 		want := "notpresent"
 		if v, ok := t.content[path]; ok {
 			want = "ok " + hx(v)
